@@ -148,6 +148,7 @@ def kvInvalidates (mode : Nat) (a b : Key) : Bool :=
   | 1, [ka, va], [kb, vb] => ka == kb && va > vb
   | 2, _, _ => false
   | 3, _, _ => true
+  | 4, ka :: _, kb :: _ => ka == 0 || ka == kb
   | _, _, _ => false
 
 def kvHandler (deny mode : Nat) : Handler :=
@@ -187,6 +188,13 @@ def connStr : Conn → String
 def cursorStr : Cursor → String
   | .at i => toString i | .max => "max"
 
+def perStr : Option Periodic → String
+  | none => "-"
+  | some p => s!"{p.freq}/{p.num}"
+
+def cfgStr (c : Config) : String :=
+  s!"{c.probePeriod},{c.probeRtt},{c.k},{c.maxTx},{c.s2d},{c.rda},{c.mps},{if c.notifyDown then 1 else 0},{perStr c.pa},{perStr c.pad},{perStr c.pg}"
+
 def obsStr (s : State) : String :=
   s!"obs id={idStr s.id} n={s.numActive} ub={s.updates.length} cb={s.custom.length} ms={listStr (s.ms.map memberStr)}"
 
@@ -195,7 +203,7 @@ def hidStr (s : State) : String :=
   let d := match p.direct with | some m => memberStr m | none => "-"
   let ind := if p.indirect.isEmpty then "-" else ";".intercalate (p.indirect.map idStr)
   let h := if s.hst.isEmpty then "-" else ",".intercalate (s.hst.map fun e => ".".intercalate (e.map toString))
-  s!"hid inc={s.inc} tok={s.token} conn={connStr s.conn} cur={cursorStr s.cursor} probe={d},{ind},{p.number},{if p.directAckOk then 1 else 0},{p.indirectAckCount},{if p.reached then 1 else 0} upd={entriesStr s.updates} cus={entriesStr s.custom} hst={h}"
+  s!"hid inc={s.inc} tok={s.token} conn={connStr s.conn} cur={cursorStr s.cursor} probe={d},{ind},{p.number},{if p.directAckOk then 1 else 0},{p.indirectAckCount},{if p.reached then 1 else 0} upd={entriesStr s.updates} cus={entriesStr s.custom} hst={h} cfg={cfgStr s.cfg}"
 
 /-! ### sessions -/
 
